@@ -185,6 +185,7 @@ class R13(Rig):
         return self._command(make(), settle)
 
     def _command(self, coro, settle=2.5):
+        self.block_before = self.peer.block
         n0 = len(self.peer.commands)
         m0 = len(self.net.sent)
         t = self.spawn(coro, name="HARNESS:command")
@@ -222,6 +223,30 @@ def judge_set(rig, cmds, wire, tag, exp_raw, why_prefix):
     if fl["pos"] != f.pos or len(fl["data"]) != f.width or fl["len"] != 5 + f.width:
         return ("geometry", f"{why_prefix}: SPACK writes {len(fl['data'])} byte(s) at {fl['pos']} (len byte {fl['len']}), item {tag} is "
                             f"{f.width} byte(s) at {f.pos}")
+    # nothing but the item itself (and the state item the spa lets follow it) may change on the spa
+    before = getattr(rig, "block_before", None)
+    if before is not None:
+        allowed = set(range(f.pos, f.pos + f.width))
+        own = f.mask << f.shift
+        for p_, d_ in rig.peer.follow(f.pos, rig.peer.block[f.pos:f.pos + f.width]):
+            allowed.update(range(p_, p_ + len(d_)))
+        after = rig.peer.block
+        for i in range(1024):
+            if before[i] != after[i] and i not in allowed:
+                return ("collateral", f"{why_prefix}: spa byte {i} changed {before[i]:#x}->{after[i]:#x} although only {tag} was commanded")
+        wb = int.from_bytes(before[f.pos:f.pos + f.width], "big")
+        wa = int.from_bytes(after[f.pos:f.pos + f.width], "big")
+        foreign = (wb ^ wa) & ~own
+        # bits of the state item that follows may live in the same word
+        fol = 0
+        for dev in ("P1", "P2", "P3", "P4", "P5", "BL", "Waterfall"):
+            if dev in rig.peer.acc:
+                fs = Field.of(rig.peer.acc[dev])
+                if fs.pos == f.pos and fs.width == f.width:
+                    fol |= fs.mask << fs.shift
+        if foreign & ~fol:
+            return ("collateral", f"{why_prefix}: the write changed bits {foreign & ~fol:#x} of the word at {f.pos} that belong to other items "
+                                  f"(word {wb:#x}->{wa:#x}, {tag} owns {own:#x})")
     if f.raw(rig.peer.block) != exp_raw:
         return ("effect", f"{why_prefix}: after the spa applied the write, {tag} holds raw {f.raw(rig.peer.block)}, requested {exp_raw}")
     if rig.spa.struct.status_block[f.pos:f.pos + f.width] != rig.peer.block[f.pos:f.pos + f.width]:
@@ -269,6 +294,20 @@ def _rig_job(snapname):
             note(judge_set(rig, cmds, wire, ud, acc[ud].items.index(req), f"pump {pump.key} {cur}->{req}"), f"pump {pump.key}")
             if not bad and pump.mode != req and req in rig.spa.accessors[pump._state_sensor.accessor.tag].items:
                 note(("read-back", f"pump {pump.key} set to {req}: after the echo the device reads {pump.mode!r}"), f"pump {pump.key}")
+        # the same with every OTHER pump/blower demand switched on (shared demand words are then non-zero)
+        others = [q for q in fac.pumps if q is not pump]
+        for q in others:
+            uq = q._user_demand["demand"]
+            rig.spa_set(uq, max(i for i, x in enumerate(acc[uq].items) if x not in ("OFF", "")))
+        for cur, req in itertools.product(modes, repeat=2):
+            rig.spa_set(ud, acc[ud].items.index(cur))
+            n += 1
+            cmds, wire, err = rig.command(lambda: pump.async_set_mode(req))
+            note(("engine", err) if err else judge_set(rig, cmds, wire, ud, acc[ud].items.index(req),
+                                                        f"pump {pump.key} {cur}->{req} with the other pumps running"), f"pump {pump.key}")
+        for q in others:
+            uq = q._user_demand["demand"]
+            rig.spa_set(uq, acc[uq].items.index("OFF") if "OFF" in acc[uq].items else 0)
         # depth 2: all command pairs from OFF
         for r1, r2 in itertools.product(modes, repeat=2):
             rig.spa_set(ud, acc[ud].items.index(modes[0]))
